@@ -80,6 +80,10 @@ class JaggedArray:
                 flattenedArray.append(arr)
             elif arr is None:
                 nones.append(i)
+            else:
+                raise TypeError(
+                    f"Cannot store an entry of type {type(arr)} of parameter `{paramName}` in a JaggedArray"
+                )
 
         self.flattenedArray = np.array(flattenedArray)
         self.offsets = np.array(offsets)
